@@ -71,7 +71,9 @@ def gen_cut(rng, ts):
 
 
 def mk(ts, vals, tz, frame):
-    idx = pd.DatetimeIndex(pd.to_datetime(ts, unit="s", utc=True)).tz_convert(tz)
+    # nanosecond resolution, as the data classes produce: with a second-resolution index pandas refuses to slice at an ambiguous
+    # local label of another resolution ("non-monotonic index with a missing label") — a pandas quirk, not the code under test
+    idx = pd.DatetimeIndex(pd.to_datetime(ts, unit="s", utc=True)).as_unit("ns").tz_convert(tz)
     v = [np.nan if x is None else x for x in vals]
     if frame:
         return pd.DataFrame({"value": v, "temperature": 60.0}, index=idx)
